@@ -8,3 +8,5 @@ mod c01;
 mod c12;
 #[cfg(kani)]
 mod c16;
+#[cfg(kani)]
+mod c17;
